@@ -18,6 +18,7 @@ package syncer
 //@ func RedisOutput.parseAofCommand
 //@   arith int
 //@   properties C07 C01
+//@   replay syncer_parseAofCommand
 //@   ghost var pos mathint
 //@   ghost var unread mathint
 //@   ghost var cur mathint = startOffset
